@@ -85,14 +85,29 @@ impl BranchOpsTracker {
         // Replace with Insert if:
         // 1. Prefix compression is stopped.
         // 2. Update op is referring to an uncompressed separator.
-        if base.node.prefix_compressed() as usize <= pos || self.gauge.prefix_compressed.is_some() {
+        if base.node.prefix_compressed() as usize <= pos
+            || self.gauge.prefix_compressed.is_some()
+            || short_first_separator(base, pos)
+        {
             self.replace_with_insert(Some(base), self.ops.len() - 1);
         }
     }
 
     // Push a new BranchOp::KeepChunk operation.
-    pub fn push_chunk(&mut self, base: &BaseBranch, start: usize, end: usize) {
+    pub fn push_chunk(&mut self, base: &BaseBranch, mut start: usize, end: usize) {
         assert!(self.valid_gauge);
+
+        // The first separator of the base can be shorter than the base's prefix (it is stored with
+        // zero bits). `BranchNodeBuilder::push_chunk` cannot shrink it again under a shorter prefix,
+        // so it never becomes part of a chunk.
+        if start < end && short_first_separator(base, start) {
+            let (key, pn) = base.key_value(start);
+            self.push_insert(key, pn);
+            start += 1;
+            if start == end {
+                return;
+            }
+        }
 
         // The chunk may lie entirely in the uncompressed tail of the base (`start` past the last
         // compressed separator): then there is no compressed part to keep as a chunk.
@@ -376,6 +391,11 @@ impl BranchOpsTracker {
         }
         left_chunk_n_items
     }
+}
+
+// Is `pos` the first separator of the base and shorter than the base's prefix?
+fn short_first_separator(base: &BaseBranch, pos: usize) -> bool {
+    pos == 0 && separator_len(&base.key(0)) < base.node.prefix_len() as usize
 }
 
 // Simple wrapper over a series of BranchOp meant to be used as &[BranchOp],
